@@ -15,12 +15,16 @@ from .miniev import Unsupported
 
 def match_obj(groups: dict, name='m', start=0, end=1):
     """A stand-in for a regex match object with the given named groups."""
-    def group(g=0):
-        if g == 0:
-            return groups.get(0, '')
-        if g not in groups:
-            raise Raised('IndexError')
-        return groups[g]
+    def group(*gs):
+        def one(g):
+            if g == 0:
+                return groups.get(0, '')
+            if g not in groups:
+                raise Raised('IndexError')
+            return groups[g]
+        if not gs:
+            return one(0)
+        return one(gs[0]) if len(gs) == 1 else tuple(one(g) for g in gs)
     named = lambda default=None: {k: (v if v is not None else default) for k, v in groups.items() if isinstance(k, str)}      # noqa: E731
     return Obj(_name=name, group=group, groupdict=named, groups=lambda default=None: tuple(named(default).values()),
                start=lambda i=0: start, end=lambda i=0: end, span=lambda i=0: (start, end))
